@@ -212,7 +212,7 @@ struct SmallSetEngine : EngineBase {
       typename Set::const_iterator fit;
       bool c = false;
       size_t cnt = 9, mc = 0;
-      HalfKey hk{key >> 1};
+      HalfKey hk(key >> 1);
       if (form == 0) window([&] { fit = s.find(key); c = s.contains(key); cnt = s.count(key); });
       else window([&] { fit = s.find(hk); c = s.contains(hk); cnt = s.count(hk); });
       if (threw) { violation("C04", "model.unexpected_exception", threw_what); return; }
